@@ -12,7 +12,7 @@ guards are not necessary for the property; C09 owns the "no other exception" sid
 """
 from __future__ import annotations
 
-from ..facts import abs_range, atoms, call_is, equality_atoms, reads_of, root_of, slice_bounds, strip
+from ..facts import abs_range, atoms, call_is, cut_normalise, equality_atoms, reads_of, root_of, slice_bounds, strip
 from ..model import AnalysisError
 from ..terms import is_const, show, subterms, summarize
 
@@ -63,7 +63,11 @@ def run(ctx):
             continue
         n_ret += 1
         ctx.count("returns")
-        facts = atoms(pc)
+        facts0 = atoms(pc)
+        # slices of the uncut buffer written relative to the declared length read as slices of the cut packet
+        D_ = ("param", fn.params[-1])
+        facts = [cut_normalise(f, D_, facts0) for f in facts0]
+        ret = cut_normalise(ret, D_, facts0)
         sc = sig_check(facts, ds)
         ok = ctx.ob("C03.a", FN, sc is not None,
                     "return is dominated by an equality Security.sign(signed range) == signature range",
